@@ -99,6 +99,24 @@ theorem flatten_injective (ranges idx idx' : List Nat) (ncol : Nat) (hv : IdxIn 
 example : flattenC [257, 257, 257, 257] [254, 0, 0, 0] 66049 ≠ flattenC [257, 257, 257, 257] [0, 251, 3, 256] 66049 := by
   decide
 
+/-- **The matrix assembled with the C-typed positions is the matrix `glam_eq_kron_C09` is about.**  For a tensor whose
+listed entries have valid index tuples (`NdSparse.WF`), below 2⁶³ cells, `flatten_ndarray_to_sparse` with the index
+arithmetic in its C types followed by `triplet_to_sparse` (`flattenNdC`) is the natural-number model `flattenNd` that
+`glamSystem` uses — so the GLAM identity `glam_eq_kron_C09` holds for the routine as typed in C, for every problem with
+fewer than 2⁶³ normal-matrix cells. -/
+theorem flatten_ctypes_is_model {α : Type} [A : Arith α] (a : NdSparse α) (nrow ncol : Nat) (ha : a.WF)
+    (h32 : ∀ r ∈ a.ranges, r < 4294967296) (hb : natProd a.ranges < 9223372036854775808)
+    (hn0 : 0 < ncol) (hn : ncol < 18446744073709551616) :
+    flattenNdC a nrow ncol = .ok (flattenNd a nrow ncol) := by
+  unfold flattenNdC flattenNd
+  rw [flatPositionsC_eq a.ranges ncol a.entries ha h32 hb hn0 hn]
+
+/-- non-vacuity: three entries (one cell listed twice) of the 257 × 257 × 257 × 257 tensor, two of them beyond position 2³² -/
+example : (⟨[257, 257, 257, 257], [([254, 0, 0, 0], (1 : Rat)), ([0, 251, 3, 256], 2), ([254, 0, 0, 0], 4)]⟩ : NdSparse Rat).WF := by
+  intro e he
+  simp only [List.mem_cons, List.not_mem_nil, or_false] at he
+  rcases he with rfl | rfl | rfl <;> simp [idxIn_cons, idxIn_nil_right]
+
 /-- **(d) the width of `moduli[]` matters.**  With `unsigned moduli[]` (each product `i[j]*moduli[j]` computed modulo
 2³²) the 257 × 257 problem — 66 049 coefficients, 4 362 470 401 cells — sends the cell (row tuple (254, 0), column tuple
 (0, 0)), which belongs in row 65 278, column 0, to row 251, column 1 027, where the different cell
